@@ -101,6 +101,9 @@ pub fn cmd_worker(opts: &BTreeMap<String, String>) -> i32 {
     if opts.get("tier").map(|t| t == "thorough").unwrap_or(false) {
         crate::gen::THOROUGH.store(true, std::sync::atomic::Ordering::Relaxed);
     }
+    if opts.contains_key("no-maplock") {
+        crate::conc::NO_MAPLOCK_MODEL.store(true, std::sync::atomic::Ordering::Relaxed);
+    }
     let (known_open, _) = load_known(&format!("{}/KNOWN_FINDINGS.txt", verif_root()));
     let t0 = Instant::now();
     let out = std::io::stdout();
@@ -192,6 +195,7 @@ fn spawn_workers(prop: &str, seed: u64, runs: u64, jobs: u64, deadline: u64, exe
             .args(["--runs", &runs.to_string()])
             .args(["--deadline", &deadline.to_string()])
             .args(["--tier", tier])
+            .args(if std::env::var("POCKET_SIM_NO_MAPLOCK").is_ok() { vec!["--no-maplock"] } else { vec![] })
             .stdout(Stdio::piped())
             .stderr(Stdio::null());
         if log {
@@ -362,6 +366,19 @@ pub fn cmd_check(opts: &BTreeMap<String, String>) -> i32 {
     let root = verif_root();
     let (_known_open, known_entries) = load_known(&format!("{root}/KNOWN_FINDINGS.txt"));
     println!("pocket-sim check property={prop} tier={tier} VERIF_SEED={seed} runs={runs} workers={jobs}");
+    // the concurrent mode models std's RwLock inside mmap-append (a new reader waits while a
+    // writer is queued); confirm with real threads that this is how the lock behaves here
+    let mut lock_probe = "not run (no concurrent leg)".to_string();
+    if conc_share(&prop) > 0 {
+        match run_with_timeout(Command::new(&exe).arg("lock-model-probe"), 20) {
+            Some((7, _)) => lock_probe = "confirmed: a reader re-entering the map's read lock dead-locks against a queued writer (real threads, real std RwLock)".to_string(),
+            other => {
+                lock_probe = format!("NOT confirmed ({:?}): the lock model of the concurrent mode is switched off for this batch", other.map(|x| x.0));
+                std::env::set_var("POCKET_SIM_NO_MAPLOCK", "1");
+                println!("note: {lock_probe}");
+            }
+        }
+    }
     let t0 = Instant::now();
     if tier == "thorough" {
         crate::gen::THOROUGH.store(true, std::sync::atomic::Ordering::Relaxed);
@@ -581,6 +598,7 @@ pub fn cmd_check(opts: &BTreeMap<String, String>) -> i32 {
         ("worker_processes_died", J::u(agg.crashed.len() as u64)),
         ("known_findings_fired", J::Arr(known_json)),
         ("kill_fidelity_probe", fidelity_json),
+        ("rwlock_model_probe", J::s(&lock_probe)),
         ("exhaustive", J::Bool(false)),
         (
             "components_real",
